@@ -18,7 +18,7 @@ PREFIX = {"u64": "u64", "usize": "usize", "u8": "u8", "bool": "bool", "f64": "f6
           "ParmsID": "pid", "EncryptionParameters": "params", "Plaintext": "plain"}
 LEAN_TY = {"u64": "Nat", "usize": "Nat", "u8": "Nat", "int": "Nat", "bool": "Bool", "f64": "Nat", "Modulus": "Nat", "SchemeType": "Nat",
            "ParmsID": "List Nat", "EncryptionParameters": "Params", "Plaintext": "Plain", "I": "α", "unit": "Unit", "bytes": "Bytes",
-           "Level": "Level", "CtV": "CtV", "Ciphertext": "CtV", "CdParms": "Level", "HeContext": "Ctx", "PublicKey": "CtV", "KSwitchKeys": "KSwitch CtV", "RelinKeys": "KSwitch CtV", "GaloisKeys": "KSwitch CtV"}
+           "Level": "Level", "CtV": "CtV", "Ciphertext": "CtV", "CdParms": "Level", "HeContext": "Ctx", "CtFlat": "CtFlat", "PublicKey": "CtV", "KSwitchKeys": "KSwitch CtV", "RelinKeys": "KSwitch CtV", "GaloisKeys": "KSwitch CtV"}
 # context-dependent serializers (`x.serialize(context, stream)`): static type -> generated function
 CTX_PREFIX = {"Ciphertext": "ct", "PublicKey": "pk", "KSwitchKeys": "kswitch", "RelinKeys": "relin", "GaloisKeys": "galois"}
 # functions translated elsewhere (Gen/WordFns.lean, partial: `R`): name -> (Lean name, result type)
@@ -228,6 +228,7 @@ class Lower:
     def ctx_binders(self):
         b = []
         if self.mode == "W": b.append("{S E : Type} (st : WStream S E)")
+        if self.ent.get("expand"): b.append("(expand : List Nat → Level → List Nat)")
         if self.generic:
             b.insert(0, "{α : Type}")
             b.append({"W": "(item' : α → W S E Nat)", "R": "(item' : Rd α)", "T": "(item' : α → Nat)", "P": "(item' : α → Nat)"}[self.mode])
@@ -235,6 +236,7 @@ class Lower:
     def ctx_args(self):
         a = []
         if self.mode == "W": a.append("st")
+        if self.ent.get("expand"): a.append("expand")
         if self.generic: a.append("item'")
         return " ".join(a)
 
@@ -294,6 +296,12 @@ class Lower:
         T = self.T; tag = e[0]
         if tag == "num": return k(str(e[1]), e[2] or "int")
         if tag == "bool": return k("true" if e[1] else "false", "bool")
+        if tag == "float":
+            if e[1] != "1.0": self.fail(f"float literal {e[1]}")
+            return k("oneF64", "f64")                      # the IEEE bit pattern of 1.0 (Model/Codec.lean)
+        if tag == "vecrep":
+            if not (e[1][0] == "num" and e[1][1] == 0 and e[1][2] == "u64"): self.fail("vec![x; n] with x other than 0u64")
+            return self.ce(e[2], env, lambda c, t: k(f"(List.replicate {c} 0)", ("vec", "u64")))
         if tag == "paren": return self.ce(e[1], env, lambda c, t: k(c if re.fullmatch(r"[\w.]+", c) else "(" + c + ")", t))
         if tag == "path":
             segs = e[1]
@@ -378,7 +386,7 @@ class Lower:
         """does the syntax tree contain `?`, a monadic call, `unwrap`, a partial operation?"""
         if isinstance(x, tuple):
             if x and x[0] == "try": return True
-            if x and x[0] == "mcall" and x[2] in ("unwrap",): return True
+            if x and x[0] == "mcall" and x[2] in ("unwrap", "contains_seed", "expand_seed"): return True
             if x and x[0] == "bin" and x[1] == "-": return True
             if x and x[0] in ("call",) and x[1][-1] in ("Err", "Ok"): return True
             if x and x[0] == "call" and self.gen.done.get(x[1][-1]) == "P": return True
@@ -453,6 +461,8 @@ class Lower:
                 g = " || ".join(f"{c} == {v}" for v in sorted(self.gen.scheme.values()))
                 return f"if {g} then\n{k(c, 'SchemeType')}\nelse {self.panic()}"
             return self.ce(args[0], env, kf)
+        if segs[-2:] == ["Ciphertext", "from_members"] and len(args) == 8:
+            return self.args(args, env, lambda cs: k("(CtFlat.mk " + " ".join(c for c, _ in cs) + ")", "CtFlat"))
         if fn == "with_capacity" and segs[-2:] == ["Vec", "with_capacity"]:
             return self.ce(args[0], env, lambda c, t: k("[]", ["vec", None]))
         if self.mode == "P" and len(segs) <= 2 and (fn in EXTERN_P or self.gen.done.get(fn) == "P"):
@@ -478,6 +488,14 @@ class Lower:
                 v = self.fresh()
                 return f"(match {c} with\n| some {v} => (\n{k(v, t[1])})\n| none => {self.panic()})"
             if m == "iter" and not args: return k(c, t)
+            if m == "unwrap_or" and len(args) == 1 and isinstance(t, tuple) and t[0] == "opt":
+                return self.ce(args[0], env, lambda cd, td: k(f"({c}.getD {cd})", t[1]))
+            if t == "CtFlat" and m == "contains_seed" and not args:
+                v = self.fresh()
+                return f"(match ctfContainsSeed {c} with\n| some {v} => (\n{k(v, 'bool')})\n| none => {self.panic()})"
+            if t == "CtFlat" and m == "expand_seed" and len(args) == 1 and self.ent.get("expand"):
+                v = self.fresh()
+                return self.ce(args[0], env, lambda cc, tc: f"(match ctfExpandSeed expand {cc} {c} with\n| some {v} => (\n{k(v, 'CtFlat')})\n| none => {self.panic()})")
             if (t, m, len(args)) in ACCESSORS:
                 rt, tpl = ACCESSORS[(t, m, len(args))]
                 return self.args(args, env, lambda cs: k(tpl.format(c, *[x for x, _ in cs]), self.ntp(rt)))
@@ -605,6 +623,13 @@ class Lower:
                     env2 = dict(env); env2[x] = (c0, t0)
                     return self.let(c0, MUTATORS[(t0, "data_mut=")][0].format(c0, c), rest(env2))
                 return self.ce(rhs, env, ka)
+            if lhs[0] == "index" and lhs[1][0] == "path" and len(lhs[1][1]) == 1 and lhs[1][1][0] in env and op is None and lhs[2][0] != "range":
+                x = lhs[1][1][0]; c0, t0 = env[x]
+                if not (isinstance(t0, tuple) and t0[0] == "vec" and self.is_nat(t0[1])): self.fail("indexed store into a non-vector", ln)
+                if self.mode == "T": self.fail("indexed store in a total function", ln)
+                # the index is evaluated, then the right-hand side, then the bounds check of the store
+                return self.ce(lhs[2], env, lambda ci, ti: self.ce(rhs, env, lambda c, t:
+                    f"if {ci} < {c0}.length then\n" + self.let(c0, f"{c0}.set {ci} {c}", rest(env)) + f"\nelse {self.panic()}"))
             if lhs[0] != "path" or len(lhs[1]) != 1 or lhs[1][0] not in env: self.fail("assignment target", ln)
             x = lhs[1][0]; c0, t0 = env[x]
             def ka(c, t):
@@ -702,6 +727,7 @@ class Lower:
     def assigned(self, x, acc):
         if isinstance(x, tuple):
             if x and x[0] == "assign" and x[1][0] == "path": acc.add(x[1][1][0])
+            if x and x[0] == "assign" and x[1][0] == "index" and x[1][1][0] == "path": acc.add(x[1][1][1][0])
             if x and x[0] == "mcall" and x[2] == "push" and x[1][0] == "path": acc.add(x[1][1][0])
             for y in x: self.assigned(y, acc)
         elif isinstance(x, list):
@@ -804,6 +830,7 @@ class Lower:
         if self.mode in ("W", "R"):
             if ret[0] != "result": self.fail("a stream function must return Result<..>")
             rt = self.rty(ret[1])
+            if self.mode == "R" and rt == "Ciphertext": rt = "CtFlat"          # readers BUILD a ciphertext: `from_members`
         else: rt = self.rty(ret)
         body = self.cs(list(fn["body"][0]), fn["body"][1], env, None, "TAIL")
         doc = f"/-- `{self.ent['where']}`  {fn['file']}:{fn['line0']}-{fn['line1']}  sha256/64(normalised source) = {fn['hash']} -/"
@@ -862,6 +889,37 @@ def rreadExact (k : SK) (n : Nat) : Rd Bytes := readExact k n
 def rfill (f : Nat → Rd Nat) : List Nat → Rd (List Nat)
   | [] => rpure []
   | x :: xs => rbind (f x) fun v => rbind (rfill f xs) fun vs => rpure (v :: vs)
+
+/-- a partial pure computation inside a reader: its failure is a panic -/
+def rlift {α : Type} (r : R α) : Rd α := fun bs =>
+  match r with
+  | .ok a => .ok (a, bs)
+  | .error _ => .error .bad
+
+/-- what `Ciphertext::from_members(size, coeff_modulus_size, poly_modulus_degree, data, parms_id, scale, correction_factor, is_ntt_form)` builds -/
+structure CtFlat where
+  size : Nat
+  k : Nat
+  n : Nat
+  data : List Nat
+  pid : List Nat
+  scale : Nat
+  cf : Nat
+  ntt : Bool
+  deriving DecidableEq, Repr
+
+/-- TRUSTED reading of `impl ExpandSeed for Ciphertext :: contains_seed` (src/text.rs): `size != HE_CIPHERTEXT_SIZE_MIN` ⇒ false, else
+    `self.poly(1)[0] == CIPHERTEXT_SEED_FLAG` with `poly(1) = &data[d..2d]`, `d = k·n` (`none` = the slice / the index panics) -/
+def ctfContainsSeed (c : CtFlat) : Option Bool :=
+  if c.size != HC.Gen.HE_CIPHERTEXT_SIZE_MIN then some false
+  else if 2 * (c.k * c.n) ≤ c.data.length ∧ 0 < c.k * c.n then some (c.data.getD (c.k * c.n) 0 == seedFlag) else none
+
+/-- TRUSTED reading of `expand_seed` (src/text.rs): panics unless `contains_seed()`; the 64 seed bytes are the 8 words after the flag word;
+    `rlwe::sample::uniform(prng(seed), level parameters, poly_mut(1))` overwrites polynomial 1 — the model's abstract `expand seed level` -/
+def ctfExpandSeed (expand : List Nat → Level → List Nat) (ctx : Ctx) (c : CtFlat) : Option CtFlat :=
+  match ctfContainsSeed c, ctx.find c.pid with
+  | some true, some lv => some { c with data := c.data.take (c.k * c.n) ++ expand ((c.data.drop (c.k * c.n + 1)).take seedWords) lv }
+  | _, _ => none
 
 /-- partial arithmetic (`a - b`, `v[i]`): `R = Except Err` of Model/Word.lean -/
 def ppure {α : Type} (a : α) : R α := .ok a
@@ -1026,6 +1084,7 @@ TABLE = (
        {"fn": "serialize", "impl": "SerializableWithHeContext for KSwitchKeys", "selfty": "KSwitchKeys", "mode": "W", "lean": "kswitch_serialize", "where": "impl SerializableWithHeContext for KSwitchKeys :: serialize", "ctx_first": True},
        {"fn": "serialize", "impl": "SerializableWithHeContext for RelinKeys", "selfty": "RelinKeys", "mode": "W", "lean": "relin_serialize", "where": "impl SerializableWithHeContext for RelinKeys :: serialize", "ctx_first": True},
        {"fn": "serialize", "impl": "SerializableWithHeContext for GaloisKeys", "selfty": "GaloisKeys", "mode": "W", "lean": "galois_serialize", "where": "impl SerializableWithHeContext for GaloisKeys :: serialize", "ctx_first": True},
+       {"fn": "deserialize_full", "impl": "Ciphertext", "selfty": "Ciphertext", "mode": "R", "lean": "ct_deserialize_full", "where": "impl Ciphertext :: deserialize_full", "ctx_first": True, "expand": True},
        {"fn": "serialized_full_size", "impl": "Ciphertext", "selfty": "Ciphertext", "mode": "P", "lean": "ct_serialized_full_size", "where": "impl Ciphertext :: serialized_full_size", "ctx_first": True},
        {"fn": "serialized_size", "impl": "SerializableWithHeContext for Ciphertext", "selfty": "Ciphertext", "mode": "P", "lean": "ct_serialized_size", "where": "impl SerializableWithHeContext for Ciphertext :: serialized_size", "ctx_first": True},
        {"fn": "serialized_terms_size", "impl": "Ciphertext", "selfty": "Ciphertext", "mode": "P", "lean": "ct_serialized_terms_size", "where": "impl Ciphertext :: serialized_terms_size", "ctx_first": True}]
